@@ -312,3 +312,38 @@ Theorem C06_marlin_combinations_complete :
       mcheck_combinations vk lcs cs qs ev pfs chal vtape = Ok (true, rest, length (group_queries qs)).
 Proof. exact @marlin_lc_complete. Qed.
 Print Assumptions C06_marlin_combinations_complete.
+
+(* the same with separate prover / verifier states (simulation) and a side condition on the points; instance: Hyrax *)
+Theorem C06_default_combinations_complete_sim :
+  forall (FO : FieldOps) (FL : FieldLaws FO) (Comm Item Proof PSt VSt : Type)
+         (check : list Comm -> point -> list F -> Proof -> VSt -> res (bool * VSt))
+         (open : list Item -> point -> PSt -> res (Proof * PSt))
+         (R : Item -> Comm -> Prop) (value : Item -> point -> F) (sim : PSt -> VSt -> Prop) (okpt : point -> Prop),
+    (forall items cs pt st vst pf st', okpt pt -> Forall2 R items cs -> sim st vst -> open items pt st = Ok (pf, st') ->
+       exists vst', check cs pt (map (fun it => value it pt) items) pf vst = Ok (true, vst') /\ sim st' vst') ->
+    forall lcs items cs eqn_qs eqn_ev st vst pfs evs st',
+      maps_agree Comm Item R (label_map items) (label_map cs) ->
+      one_point_per_label eqn_qs ->
+      (forall q, In q eqn_qs -> okpt (snd (snd q))) ->
+      (forall q terms, In q eqn_qs -> OrdMap.lookup N.compare (fst q) (lcs_map lcs) = Some terms ->
+          lookup_pk (fst q, snd (snd q)) eqn_ev = Some (LC.lc_value (item_value Item value (label_map items) (snd (snd q))) terms)) ->
+      sim st vst ->
+      default_open_combinations Item Proof PSt open value lcs items eqn_qs st = Ok (pfs, evs, st') ->
+      exists vst', default_check_combinations Comm Proof VSt check lcs cs eqn_qs eqn_ev pfs (Some evs) vst = Ok (true, vst') /\ sim st' vst'.
+Proof. exact @default_lc_complete_sim. Qed.
+Print Assumptions C06_default_combinations_complete_sim.
+
+From PC Require Import Schemes.MLPC Schemes.Hyrax Proofs.HyraxFacts Proofs.HyraxBatchFacts.
+Theorem C06_hyrax_combinations_complete :
+  forall (FO : FieldOps) (FL : FieldLaws FO) keylen nv,
+    (1 <= keylen)%nat -> keylen = (2 ^ (nv / 2))%nat ->
+    forall lcs items cs eqn_qs eqn_ev ot ch pfs evs ot' ch',
+    maps_agree (list gel) HState (hb_R keylen nv) (label_map items) (label_map cs) ->
+    one_point_per_label eqn_qs ->
+    (forall q, In q eqn_qs -> hb_okpt keylen nv (snd (snd q))) ->
+    (forall q terms, In q eqn_qs -> OrdMap.lookup N.compare (fst q) (lcs_map lcs) = Some terms ->
+        lookup_pk (fst q, snd (snd q)) eqn_ev = Some (LC.lc_value (item_value HState (hb_value keylen) (label_map items) (snd (snd q))) terms)) ->
+    default_open_combinations HState (list HProof) (list F * list F) (hb_open keylen) (hb_value keylen) lcs items eqn_qs (ot, ch) = Ok (pfs, evs, (ot', ch')) ->
+    default_check_combinations (list gel) (list HProof) (list F) (hb_check keylen) lcs cs eqn_qs eqn_ev pfs (Some evs) ch = Ok (true, ch').
+Proof. exact @hyrax_lc_complete. Qed.
+Print Assumptions C06_hyrax_combinations_complete.
